@@ -445,7 +445,7 @@ def griffe_frames(exc: BaseException) -> list[tuple[str, str, str]]:
 
 
 def classify_exception(case: dict, exc: BaseException, pkind: str, no_filepath: bool = False,  # noqa: PLR0911
-                       alias_names: frozenset = frozenset()) -> str | None:
+                       alias_names: frozenset = frozenset(), parent_annotation: str = "") -> str | None:
     frames = griffe_frames(exc)
     if not frames:
         return None
@@ -454,15 +454,19 @@ def classify_exception(case: dict, exc: BaseException, pkind: str, no_filepath: 
     funcs = [f[1] for f in frames]
     docfuncs = [f for f in frames if f[0].startswith("docstrings" + os.sep)]
     last_doc = docfuncs[-1] if docfuncs else ("", "", "")
+    # frame that the last docstrings frame called (line texts of frames that sit in an except / with block are not used:
+    # under sys.monitoring CPython 3.12.1 sometimes reports the line after the block for them)
+    after_doc = frames[frames.index(last_doc) + 1] if docfuncs and frames.index(last_doc) + 1 < len(frames) else ("", "", "")
+    parent_getitem = after_doc[0] == "mixins.py" and after_doc[1] == "__getitem__"
     if (isinstance(exc, ValueError) and str(exc) == "Empty strings are not supported" and parent is not None
-            and last_doc[1] in ("_read_attributes_section", "_read_attribute") and "docstring.parent[name]" in last_doc[2]
+            and last_doc[1] in ("_read_attributes_section", "_read_attribute") and parent_getitem
             and (_RE_EMPTY_ATTR_SPHINX.search(text) if style == "sphinx" else _RE_EMPTY_ITEM.search(text))):
         return "C12-empty-attr-name"
-    if (isinstance(exc, (RecursionError, MemoryError)) and frames[-1][1] == "parse_docstring_annotation" and "compile(" in frames[-1][2]
+    if (isinstance(exc, (RecursionError, MemoryError)) and frames[-1][1] == "parse_docstring_annotation"  # raised by its compile() call
             and max((len(ln) for ln in text.split("\n")), default=0) > 2500):  # noqa: PLR2004
         return "C12-annotation-compile-too-complex"
     if (isinstance(exc, IndexError) and style == "numpy" and parent is not None and frames[-1][0] == os.path.join("docstrings", "numpy.py")
-            and frames[-1][1] in ("_read_returns_section", "_read_receives_section") and ".slice.elements[" in frames[-1][2]):
+            and frames[-1][1] in ("_read_returns_section", "_read_receives_section") and "[" in parent_annotation):
         return "C12-numpy-parent-annotation-index"
     if (isinstance(exc, IndexError) and style == "google" and frames[-1][1] == "_get_name_annotation_description"
             and "lines[0]" in frames[-1][2] and "_read_block_items_maybe" not in funcs
@@ -473,12 +477,12 @@ def classify_exception(case: dict, exc: BaseException, pkind: str, no_filepath: 
             and pkind == "property"):
         return "C12-google-property-summary-not-text"
     if (type(exc).__name__ in ("AliasResolutionError", "CyclicAliasError") and last_doc[1] in ("_read_attributes_section", "_read_attribute")
-            and "docstring.parent[name]" in last_doc[2] and alias_names
+            and after_doc[0] in ("mixins.py", "models.py") and alias_names
             and re.search(r"(?<![\w.])(" + "|".join(re.escape(a) for a in sorted(alias_names)) + r")(?![\w])", text)):
         return "C12-attr-named-like-unresolved-import"
     if (type(exc).__name__ == "BuiltinModuleError" and no_filepath and "safe_get_expression" in funcs
             and "parse_docstring_annotation" in funcs
-            and any(f[1] == "safe_get_expression" and "parent.relative_filepath" in f[2] for f in frames)):
+            and any(f[1] == "safe_get_expression" and g[1] == "relative_filepath" for f, g in zip(frames, frames[1:]))):
         return "C12-builtin-module-parent-annotation-error"
     return None
 
@@ -615,7 +619,8 @@ def run_case(rec, case: dict, env: Env | None = None) -> None:  # noqa: ANN001, 
         rec.inconclusive(case, "per-case wall-clock watchdog fired (120 s) before any logical budget did")
         return
     except Exception as exc:  # noqa: BLE001
-        fid = classify_exception(case, exc, pkind, has_no_filepath(parent), unresolved_alias_names(parent))
+        pann = str(getattr(parent, "returns", None) or getattr(parent, "annotation", None) or "") if parent is not None else ""
+        fid = classify_exception(case, exc, pkind, has_no_filepath(parent), unresolved_alias_names(parent), pann)
         rec.fail_exc(case, f"{style} parser raised {type(exc).__name__}", exc, finding=fid, nontrivial=nontrivial, tags=tags, tried=ALL_FINDINGS)
         if parent is not None and parent.as_json() != parent_before:
             env.drop(modkey)
